@@ -47,6 +47,11 @@ Inductive case :=
 | CSeqFixed (via : nat) (hs : list string) (known : bool) (c0 : Z) (obs : list res) (c1 : Z)
 (* round robin, one caller, the subscriber reports a scripted list / error per call *)
 | CSeqDyn (via : nat) (known : bool) (c0 : Z) (steps : list (report * res)) (c1 : Z)
+(* a host slice shared by two consumers: a round robin balancer over FixedSubscriber(s) made
+   the first picks of obs, then sd.NewRandomFixedSubscriber(s) was called (once or more, or
+   concurrently), then the balancer made the remaining picks.  hs: the slice before;
+   after: the caller's slice afterwards; sub: the list of the subscriber that was returned *)
+| CShared (hs : list string) (known : bool) (c0 : Z) (obs : list res) (c1 : Z) (after sub : list string)
 (* round robin, several concurrent callers on one fixed list: results per caller *)
 | CConc (known : bool) (hs : list string) (c0 : Z) (per : list (list res)) (c1 : Z)
 (* random balancer with an injected (seeded fastrand.RNG) generator, scripted reports:
@@ -63,16 +68,23 @@ Inductive case :=
 Definition all_ok_fixed (hs : list string) (obs : list res) : bool :=
   forallb (call_ok_b (fixed hs)) obs.
 
+Definition check_seq_fixed (hs : list string) (known : bool) (c0 : Z) (obs : list res) (c1 : Z) : bool * bool :=
+  let M := List.length obs in
+  let '(c1m, om) := rr_run c0 (repeat (fixed hs) M) in
+  (list_eqb kind_eqb om obs &&
+   (negb (known && nonempty hs) || (c1 =? c1m)) &&
+   (negb (nodup_str hs && no_wrap_b c0 M (List.length hs)) || same_mset_Z (counts hs (oks om)) (counts hs (oks obs))),
+   all_ok_fixed hs obs &&
+   (negb (nodup_str hs && nonempty hs && no_wrap_b c0 M (List.length hs)) || rr_seq_b hs (oks obs))).
+
 Definition check_case (c : case) : bool * bool :=
   match c with
-  | CSeqFixed via hs known c0 obs c1 =>
-      let M := List.length obs in
-      let '(c1m, om) := rr_run c0 (repeat (fixed hs) M) in
-      (list_eqb kind_eqb om obs &&
-       (negb (known && nonempty hs) || (c1 =? c1m)) &&
-       (negb (nodup_str hs && no_wrap_b c0 M (List.length hs)) || same_mset_Z (counts hs (oks om)) (counts hs (oks obs))),
-       all_ok_fixed hs obs &&
-       (negb (nodup_str hs && nonempty hs && no_wrap_b c0 M (List.length hs)) || rr_seq_b hs (oks obs)))
+  | CSeqFixed via hs known c0 obs c1 => check_seq_fixed hs known c0 obs c1
+  | CShared hs known c0 obs c1 after sub =>
+      (* the model: the shared slice is untouched (fst (random_fixed _ hs) = hs), the new
+         subscriber holds a permutation of it; the balancer goes on over the same list *)
+      let '(a, b) := check_seq_fixed hs known c0 obs c1 in
+      (a && list_eqb str_eqb (fst (random_fixed [] hs)) after && same_mset_str hs sub, b)
   | CSeqDyn via known c0 steps c1 =>
       let '(c1m, om) := rr_run c0 (map fst steps) in
       (list_eqb kind_eqb om (map snd steps),
